@@ -115,6 +115,9 @@ class World:
         }
         if self.mode == "hooks":
             e["GIT_AI_GLOBAL_GIT_HOOKS"] = "true"
+        if os.environ.get("GAISIM_PROFILE_FILE"):
+            # reach measurement only (tools/coverage.sh): where a coverage-instrumented git-ai writes its counters
+            e["LLVM_PROFILE_FILE"] = os.environ["GAISIM_PROFILE_FILE"]
         e.update(self.extra_env)
         if extra:
             e.update(extra)
